@@ -1400,6 +1400,7 @@ func main() {
 	}
 	verifrt.SetEnvChooser(chooser)
 	debug.SetGCPercent(800)
+	debug.SetMemoryLimit(2 << 30) // 16 workers: the collector works harder long before the machine runs out of memory
 	if pf := os.Getenv("C08_PROF"); pf != "" {
 		f, _ := os.Create(pf)
 		_ = pprof.StartCPUProfile(f)
